@@ -10,15 +10,30 @@ import (
 // PartialFeeder is callback function should implemented on application side.
 type PartialFeeder func(string) (string, error)
 
+// maxPartialDepth bounds the nesting of partials (and their layouts).
+const maxPartialDepth = 1000
+
+// partialDepthKey is the context key under which a partial's scope records
+// how deeply it is nested. No identifier of a template can spell it.
+const partialDepthKey = "plush: partial depth"
+
 func PartialHelper(name string, data map[string]interface{}, help HelperContext) (template.HTML, error) {
 	if help.Context == nil {
 		return "", fmt.Errorf("invalid context. abort")
+	}
+
+	// a partial that includes itself without end must fail, not run until
+	// the process dies: the nesting depth travels with the contexts
+	depth, _ := help.Value(partialDepthKey).(int)
+	if depth >= maxPartialDepth {
+		return "", fmt.Errorf("partial %q: partials nested deeper than %d levels", name, maxPartialDepth)
 	}
 
 	help.Context = help.New()
 	for k, v := range data {
 		help.Set(k, v)
 	}
+	help.Set(partialDepthKey, depth+1)
 
 	pf, ok := help.Value("partialFeeder").(func(string) (string, error))
 	if !ok {
